@@ -256,6 +256,38 @@ pub fn wire_total(ctx: &GenCtx, rng: &mut Rng, run: u64) -> Option<Plan> {
     for len in 0..=80i32 {
         plan.ops.push(Op::Deliver { env: 0, fault: WireFault::RawPk { delta: len - pklen as i32, cseed: rng.next_u64() }, entry: ALL_ENTRIES[len as usize % 3] });
     }
+    // over-long deliveries: lengths at and beyond every fixed capacity a signature / key object can have
+    // (the longest signature the build's limits allow, for n = 32 and for this hash; 2^16; 2^20), as raw
+    // bytes and as a valid signature followed by padding — through every entry point, since the owned
+    // Signature / VerifyingKey objects copy into fixed-size buffers
+    {
+        let max_params: Vec<(u32, u32)> = (0..crate::BUILD_MAX_LEVELS).map(|i| (crate::BUILD_MIN_W[i.min(crate::BUILD_MIN_W.len() - 1)], crate::BUILD_TREE_HEIGHTS[i.min(crate::BUILD_TREE_HEIGHTS.len() - 1)])).collect();
+        let mut lens: Vec<usize> = vec![];
+        for cap in [model::sig_len(32, &max_params), model::sig_len(n, &max_params), 1 << 16, 100_000, 1 << 20] {
+            for d in [-2i64, -1, 0, 1, 2, 64] {
+                let v = cap as i64 + d;
+                if v > 0 {
+                    lens.push(v as usize);
+                }
+            }
+        }
+        lens.sort();
+        lens.dedup();
+        for (i, &len) in lens.iter().enumerate() {
+            for entry in ALL_ENTRIES {
+                plan.ops.push(Op::Deliver { env: 0, fault: WireFault::RawSig { delta: len as i32 - siglen as i32, cseed: rng.next_u64() }, entry });
+                if len > siglen {
+                    plan.ops.push(Op::Deliver { env: 0, fault: WireFault::SigPadTo { len, val: (i as u8) & 1 }, entry });
+                }
+            }
+        }
+        for len in [pklen + 65, 255, 256, 1000, 65535, 65536, 65537, 1 << 20] {
+            for entry in ALL_ENTRIES {
+                plan.ops.push(Op::Deliver { env: 0, fault: WireFault::RawPk { delta: len as i32 - pklen as i32, cseed: rng.next_u64() }, entry });
+                plan.ops.push(Op::Deliver { env: 0, fault: WireFault::PkPadTo { len, val: 0 }, entry });
+            }
+        }
+    }
     // one flipped bit in every byte of the public key, and in the first and last byte of every n-byte
     // word of the signature (randomizer, every chain value, every path node) of every level
     for byte in 0..pklen {
@@ -353,6 +385,10 @@ pub fn storage(ctx: &GenCtx, rng: &mut Rng, run: u64) -> Option<Plan> {
                 probe(&mut plan, PrvFault::SetLen { len, fill: 0x00 }, rng);
                 probe(&mut plan, PrvFault::SetLen { len, fill: 0x51 }, rng);
             }
+            // over-long key files (beyond every fixed buffer a key object can have)
+            for len in (65..=100usize).chain([127, 128, 129, 255, 256, 257, 1000, 65535, 65536, 1 << 20]) {
+                probe(&mut plan, PrvFault::SetLen { len, fill: if len % 2 == 0 { 0x00 } else { 0x51 } }, rng);
+            }
             for f in [PrvFault::Wiped, PrvFault::ForeignExhausted] {
                 probe(&mut plan, f, rng);
             }
@@ -362,7 +398,7 @@ pub fn storage(ctx: &GenCtx, rng: &mut Rng, run: u64) -> Option<Plan> {
             // key file of another hash (wrong n)
             let foreign = model::prv_blob(&params, 0, &plan.keys[1].seed.clone());
             probe(&mut plan, PrvFault::Replace { bytes: foreign }, rng);
-            plan.note = "enumerated: parameter-list lengths 0..10, key lengths 0..64, wiped/exhausted/foreign keys, boundary counters".into();
+            plan.note = "enumerated: parameter-list lengths 0..10, key lengths 0..100 and over-long ones up to 1 MiB, wiped/exhausted/foreign keys, boundary counters".into();
         }
         1..=4 => {
             // every value of two of the eight parameter bytes per section
@@ -1060,6 +1096,9 @@ pub fn limits(_ctx: &GenCtx, rng: &mut Rng, run: u64) -> Option<Plan> {
     plan.ops.push(Op::Keygen { key: 0, aux: None });
     plan.ops.push(Op::Sign { proc: 0, msg: Msg { len: 9, cseed: rng.next_u64() }, api: Api::Fn, cb: Cb::Accept, aux: None });
     plan.ops.push(Op::Lifetime { proc: 0 });
+    // the same list as a stored key file (what a build with wider limits wrote), fresh and mid-life
+    plan.ops.push(Op::ForeignKey { key: 0, counter: 0 });
+    plan.ops.push(Op::ForeignKey { key: 0, counter: 1 + rng.below(3) });
     plan.note = format!("out-of-limit: {}", what);
     Some(plan)
 }
